@@ -116,10 +116,10 @@ def gen_plan(rng, tier='quick', traces=None):
         pool.append({'kind': 'tlist', 'values': [fhex(v) for v in vals], 'layout': 'list'})
     ctx = catalog.Ctx(rng, pool)
     nclients = rng.choice([1, 2, 2, 3, 3, 4])
-    kinds_enabled = rng.sample(sorted(catalog.CLIENT_KINDS), rng.randint(1, 4))
+    kinds_enabled = rng.sample(['pipeline', 'primitives', 'streaming', 'zclient'], rng.randint(1, 4))
     clients = []
     for _ in range(nclients):
-        kind = rng.choice(kinds_enabled)
+        kind = rng.choice(kinds_enabled) if rng.random() > 0.03 else 'soak'
         clients.append(catalog.CLIENT_KINDS[kind](ctx))
     # the scheduler: interleave at call granularity, with duplicate deliveries
     dup_rate = rng.choice([0.0, 0.05, 0.15, 0.3])
@@ -160,6 +160,9 @@ def gen_plan(rng, tier='quick', traces=None):
 
 class _Skip(Exception):
     pass
+
+
+_WORLD = 'ref'
 
 
 def _materialise(pool, world):
@@ -242,7 +245,10 @@ def _resolve(spec, objs, results):
             for s in spec['concat']:
                 v = _resolve(s, objs, results)
                 parts.extend(int(x) for x in (v if isinstance(v, (list, np.ndarray)) else [v]))
-            return np.array(parts, dtype=np.int64)
+            arr = np.array(parts, dtype=np.int64)
+            if spec.get('ro') and _WORLD == 'sim':
+                arr.flags.writeable = False      # the caller's own index array, delivered read-only in the simulated world
+            return arr
         raise ValueError('bad spec %r' % (spec,))
     return spec
 
@@ -265,7 +271,15 @@ def _call_step(step, objs, results, findings, where, type_only, iso=None):
         try:
             if fn == 'caller.take':
                 i = np.asarray(args[1])
-                return ('ok', args[0][i.astype(int)])
+                sub = args[0][i.astype(int)]
+                if sub.ndim == 2 and len(sub) > 1 and not np.all(np.diff(sub[:, 0].astype(float)) > 0):
+                    # the reduction repeats an index (rdp_fixed with length >= n does: C05's business), so the
+                    # reduced "curve" has a repeated x and is not a valid input for anything downstream; a caller
+                    # would stop here, and so does the program (dependent steps are skipped in every world)
+                    return ('exc', ('exc', 'InvalidCurve'))
+                return ('ok', sub)
+            if fn == 'caller.soak':
+                return _soak(args, findings, where, type_only)
             if fn == 'caller.alloc':
                 return ('ok', np.zeros((int(args[0]), 2)))
             if fn == 'caller.fill':
@@ -286,6 +300,65 @@ def _call_step(step, objs, results, findings, where, type_only, iso=None):
             findings.append({'oracle': 'P2', 'key': 'P2iso:%s' % fn, 'where': where, 'fn': fn,
                              'detail': {'in_client_history': _short(_enc_outcome(o)), 'pristine_process': _short(ref)}})
     return o
+
+
+SOAK_TARGETS = {
+    'convex_hull.graham_scan': lambda p: (p,),
+    'convex_hull.graham_scan_lower': lambda p: (p,),
+    'linear_fit.linear_fit_points': lambda p: (p,),
+    'linear_fit.r2_points': lambda p: (p,),
+    'linear_fit.linear_fit_residuals_points': lambda p: (p,),
+    'linear_fit.shortest_distance_points': lambda p: (p, p[0], p[-1]),
+    'menger.knee': lambda p: (p,),
+    'curvature.knee': lambda p: (p,),
+    'dfdt.knee': lambda p: (p,),
+    'kneedle.knee': lambda p: (p,),
+    'lmethod.get_knee': lambda p: (p[:, 0], p[:, 1]),
+    'knee_ranking.rank': lambda p: (p[:, 1],),
+    'knee_ranking.distances': lambda p: (p[0], p),
+    'clustering.single_linkage': lambda p: (p, 0.2),
+    'clustering.average_linkage': lambda p: (p, 0.2),
+    'rdp.rdp_fixed': lambda p: (p, 3),
+    'rdp.grdp': lambda p: (p, 0.05),
+    'evaluation.compute_global_rmse': lambda p: (p, [0, len(p) // 2, len(p) - 1]),
+    'evaluation.compute_global_cost': lambda p: (p, [0, len(p) // 2, len(p) - 1]),
+    'evaluation.mip': lambda p: (p, np.array([0, 1, len(p) // 2, len(p) - 1])),
+    'zmethod.getPoints': lambda p: (p,),
+    'postprocessing.triangle_area': lambda p: (p[:3],),
+}
+
+
+def _soak(args, findings, where, type_only):
+    """A long-lived process: one public function called on `count` distinct small inputs, then the first
+    inputs again.  Bounded memos and buffers with faulty eviction only show after hundreds of calls."""
+    target, count, seed, m = args
+    rr = random.Random(seed)
+    build = SOAK_TARGETS[target]
+    limit = budget.limit_for(m)
+    firsts = []
+    acc = []
+    for i in range(int(count)):
+        x = 0.0
+        rows = []
+        for _ in range(int(m)):
+            x += rr.choice([1.0, 1.0, 2.0, 0.5])
+            rows.append([x, float(rr.randint(0, 10 ** 6)) / 64.0])
+        pts = np.array(rows)
+        e = _enc_outcome(_invoke(target, list(build(pts)), {}, limit, findings, where, type_only))
+        if i < 16:
+            firsts.append((pts, e))
+        if i % 97 == 0:
+            acc.append(sha(e)[:8])
+    bad = 0
+    for pts, e in firsts:
+        e2 = _enc_outcome(_invoke(target, list(build(pts)), {}, limit, findings, where, type_only))
+        if e2 != e:
+            bad += 1
+            if bad == 1:
+                findings.append({'oracle': 'P2', 'key': 'P2dup:%s' % target, 'where': where, 'fn': target,
+                                 'detail': {'after': '%d calls on distinct inputs in one process' % count,
+                                            'first': _short(e), 'again': _short(e2)}})
+    return ('ok', [target, int(count), bad] + acc)
 
 
 def _invoke(fn, args, kw, limit, findings, where, type_only):
@@ -411,6 +484,8 @@ def run_ref_client(plan, c):
     """W_ref: one client alone, plain world.  Executed in a forked child of the pristine run
     process.  For the steps listed in plan['iso'][c] the call is additionally performed, by
     value, in a process that has never run anything else (call server)."""
+    global _WORLD
+    _WORLD = 'ref'
     objs = _materialise(plan['pool'], 'ref')
     results = {}
     out = {}
@@ -455,6 +530,8 @@ def run_sim(plan, stats):
         worlds.install_poison(plan['poison_seed'], poison_sites)
     mon = worlds.Monitor()
     mon.install()
+    global _WORLD
+    _WORLD = 'sim'
     objs = _materialise(plan['pool'], 'sim')
     for o in plan['pool']:
         bump('layout.' + o['kind'] + '.' + o.get('layout', '-'))
